@@ -228,6 +228,7 @@ func stateListOrArrayT(s *scanner, c byte) int {
 		s.step = stateArrayT
 		return scanListType
 	}
+	s.step = stateInUnquotedString
 	return stateInUnquotedString(s, c)
 }
 
